@@ -497,6 +497,66 @@ def _imposes_requirement_on_self(repo, f: Func, depth=0):
     return None
 
 
+# (action, skipped type) pairs under which pattern matches exist that the traversal therefore never visits;
+# each was confirmed by reading the action.  A pair not listed here is an unreviewed loss of coverage.
+SKIP_REVIEWED = {
+    ("_check_bounds_on_runtime_integer_expressions", "Expression"): "the action walks subexpressions itself (_integer_bounds_errors_for_expression recurses)",
+    ("_check_bounds_on_runtime_integer_expressions", "EnumValue"): "enum values are compile-time constants of arbitrary size, not 64-bit run-time arithmetic",
+    ("_add_reference_to_dependencies", "AtomicType"): "type references are not value dependencies of a field",
+    ("_add_reference_to_dependencies", "Attribute"): "attribute expressions are handled by the field-reference traversal of the same function",
+    ("_add_reference_to_dependencies", "FieldReference"): "the components of a field reference are recorded by the FieldReference traversal (path[0])",
+    ("_add_field_reference_to_dependencies", "Attribute"): "references inside attributes are not read when a field is located or read",
+    ("compute_constraints_of_expression", "Expression"): "the action recurses into its operands",
+    ("_type_check_expression", "Expression"): "the action recurses into its operands",
+    ("_type_check_array_size", "Expression"): "the requirement concerns the size expression itself, not its operands (R-ROOTONLY)",
+    ("_type_check_array_size", "AtomicType"): "runtime parameters of an element type are not array sizes",
+    ("_resolve_reference", "FieldReference"): "field-reference components are resolved, in order, by _resolve_field_reference",
+}
+
+
+def skiploss(repo, schema=None, sites=None, modules=None):
+    """skip_descendants_of={S} hides every pattern match below an S node from the action.  For each site the
+    hidden matches are computed on the product graph; every (action, S) pair that hides at least one match must
+    be one of the reviewed pairs above."""
+    res = RuleResult("R-SKIPLOSS")
+    schema = schema or Schema(repo)
+    sites = sites if sites is not None else collect_sites(repo, schema)
+    builtins = builtin_incidentals(repo)
+    seen_pairs = set()
+    for s in sites:
+        if not s.skip or s.pattern is None or s.action is None:
+            continue
+        if modules is not None and not s.module.rel.endswith(tuple(modules)):
+            continue
+        P = Product(schema, s, builtins)
+        roots = [(t, 0) for t in (s.root_types or [])]
+        reach = P.reachable(roots)
+        free = Product(schema, s, builtins)
+        free.skip = set()
+        for (t, k) in sorted(reach):
+            if t not in s.skip:
+                continue
+            below = free.reachable(free.succ(t, k))
+            hidden = sorted({n[0] for n in below if free.is_action_node(*n)})
+            if not hidden:
+                continue
+            pair = (s.action.name, t)
+            if pair in seen_pairs:
+                continue
+            seen_pairs.add(pair)
+            res.instances += 1
+            if pair in SKIP_REVIEWED:
+                if len(res.samples) < 4:
+                    res.samples.append(f"{s.action.name} skips below {t}: {SKIP_REVIEWED[pair]}")
+                continue
+            res.add(f"{s.module.rel}|{s.action.name}|skip|{t}", f"the traversal that runs {s.action.name} over pattern {s.pattern} "
+                    f"does not descend below {t} nodes, but {'/'.join(hidden)} nodes matching the pattern occur there "
+                    f"(e.g. the element type of an array is a Type below a Type): {s.action.name} is never applied to them",
+                    s.module.rel, s.call.lineno, s.func.qualname if s.func else "")
+    res.detail = {"reviewed_pairs": len(SKIP_REVIEWED), "pairs_on_tree": sorted(f"{a}/{t}" for a, t in seen_pairs)}
+    return res
+
+
 def rootonly(repo, schema=None, sites=None):
     res = RuleResult("R-ROOTONLY")
     schema = schema or Schema(repo)
